@@ -63,6 +63,15 @@ CLAIMED = {
         "technique": "machine-checked proof in Rocq (Coq 8.16) of the look-up folds + differential correspondence and metamorphic conversion oracle",
         "design": "DESIGN.md §7 C15",
     },
+    "C16": {
+        "text": "Rocq theorems over the model of all seven converters: C16_tables (the allow-lists regenerated from the source = the documented key sets; finite), C16_reject / "
+                "C16_reject_quadlet (for every unit, path, name table and environment, an undocumented key in the unit's own section or in [Quadlet] means no service is generated), "
+                "C16_error_names_key (the error is UnknownKey naming an undocumented key of the unit), C16_accept (documented keys only => never an UnknownKey error; by typing of the converter bodies "
+                "plus the prologue). Full over the model; the file name in the message and 'no service file, exit 1' are decided by the direct oracle (in-process and end to end).",
+        "note": "Trusted: Coq kernel; tools/docs.py / Spec/Docs.v as the transcript of the documentation; the converter model (validated by differential runs on adversarial units of all types); extraction; driver.",
+        "technique": "machine-checked proof in Rocq (Coq 8.16) over the converter model + regenerated tables + guard-call inventory + differential correspondence check",
+        "design": "DESIGN.md §7 C16",
+    },
     "C17": {
         "text": "Rocq theorems over the std::path/PathBufExt model: C17_abs (for every absolute base directory and every path not starting with a specifier, absolute_from "
                 "returns the canonical spelling of the position reached by walking the segments from the root -- '.' stays, '..' goes up but never above '/', repeated and trailing "
